@@ -19,6 +19,7 @@ func init() {
 			{ID: "C08.R10", Title: "marshaler head handlers take the null exit for a nil struct address (shared with C08)", Covers: "Marshal succeeds whenever encoding/json does (nil *struct{M T} is null, not a panic)", Min: 16, Run: c08r10},
 			{ID: "C08.R11", Title: "marshaler pointer heads honour the pointer depth (shared with C08)", Covers: "values reached through pointers up to depth 3 encode like encoding/json", Min: 16, Run: c08r11},
 			{ID: "C19.R6", Title: "first-field and other-field opcode merging agree (bit size, pointer depth, context flag, sub-query) (shared with C19)", Covers: "a field encodes the same whether it is the first of its struct or not", Min: 2, Run: c19r6},
+			{ID: "C17.R6", Title: "encoder.decodeRuneInString accepts exactly the well-formed (lead byte, second byte) pairs of UTF-8: the lead-byte table `first` and the accept-range switch are folded for all 256 × 256 pairs and compared with Unicode Table 3-7", Covers: "the same string contents as encoding/json for strings that are not valid UTF-8", Min: 256, Run: c17r6},
 			{ID: "C01.R4", Title: "copyOpcode and every Filter method that rebuilds its receiver carry over each field that is assigned anywhere else in the package, field-for-field", Covers: "cached/filtered programs behave like the freshly compiled one", Min: 20, Run: c01r4},
 		},
 	})
@@ -38,6 +39,7 @@ func init() {
 			{ID: "C07.R1", Title: "raw stores match the destination's kind (shared with C07)", Covers: "null and scalars leave a well-formed destination", Min: 12, Run: c07r1},
 			{ID: "C06.R6", Title: "UnmarshalJSON dispatch follows the destination's type (shared with C06)", Covers: "Unmarshal and UnmarshalContext succeed or fail together with encoding/json on unmarshaler types", Min: 2, Run: c06r6},
 			{ID: "C15.R5", Title: "the bitmap key matchers fold case through largeToSmallTable, which maps exactly A-Z to a-z (all 256 entries evaluated) (shared with C15)", Covers: "object keys select the field encoding/json selects, case-insensitively", Min: 10, Run: c15r5},
+			{ID: "C17.R5", Title: "every hand-written combination of a high and a low surrogate in the decoder (an expression over 0xd800, 0xdc00 and two rune variables) equals 0x10000 + (hi-0xD800)<<10 + (lo-0xDC00), folded for all 1024 high × 6 low and 8 high × 1024 low surrogates", Covers: "escaped strings decode to the value encoding/json yields", Min: 1, Run: c17r5},
 			{ID: "C15.R2", Title: "an escaped key matches only a field of the same decoded length (shared with C15)", Covers: "object keys select the field encoding/json selects", Min: 4, Run: c15r2},
 		},
 	})
@@ -50,6 +52,7 @@ func init() {
 			{ID: "C03.R2", Title: "in AppendMarshalJSON[Indent]/AppendMarshalText[Indent] no value derived from the user's MarshalJSON/MarshalText result reaches the returned buffer except through compact/doIndent/AppendString", Covers: "ill-formed marshaler output gives an error, never output", Min: 8, Run: c03r2},
 			{ID: "C03.R3", Title: "per VM package: emitters end with appendComma's bytes, closers consume exactly len(appendComma) bytes of the tail, and package json trims exactly that many after encode/encodeIndent", Covers: "no dangling comma / unbalanced bracket from the trailing-separator protocol", Min: 60, Run: c03r3},
 			{ID: "C05.R6", Title: "json.Number values and numbers in marshaler output are checked against the JSON number grammar before they are written (shared with C05)", Covers: "no ill-formed number in the output; an ill-formed json.Number is an error", Min: 3, Run: c05r6},
+			{ID: "C17.R6", Title: "encoder.decodeRuneInString accepts exactly the well-formed (lead byte, second byte) pairs of UTF-8: the lead-byte table `first` and the accept-range switch are folded for all 256 × 256 pairs and compared with Unicode Table 3-7", Covers: "the output is valid UTF-8 while normalisation is on", Min: 256, Run: c17r6},
 			{ID: "C17.R1", Title: "string appenders escape every control byte, quote and backslash on the 8-byte fast path, the tail loop and the slow loop (shared with C17)", Covers: "no raw control character inside an emitted string", Min: 150, Run: c17r1},
 		},
 	})
@@ -62,6 +65,7 @@ func init() {
 			{ID: "C04.R2", Title: "intLELookup/intBELookup hold the two digits of their index, pow10i64/pow10u64 hold 10^i, hexToInt inverts hex", Covers: "integers and \\u escapes survive the round trip", Min: 250, Run: c04r2},
 			{ID: "C17.R4", Title: "decodeRuneInString returns lineSepState/paragraphSepState only under s[0]==0xE2, s[1]==0x80 and s[2]==0xA8/0xA9", Covers: "only U+2028/U+2029 are rewritten as \\u2028/\\u2029; every other character keeps its bytes", Min: 2, Run: c17r4},
 			{ID: "C04.R4", Title: "every Decode/DecodeStream method that leaves early without a store tests its scanned token against nil (the null token), never by length: the empty token of \"\" is stored", Covers: "empty versus nil containers survive the round trip ([]byte{} is written as \"\" and read back non-nil)", Min: 6, Run: c04r4},
+			{ID: "C02.R4", Title: "slots of a pooled working array are cleared on every path before the element decoder sees them (shared with C02)", Covers: "Unmarshal(Marshal(v)) does not pick up fields from an earlier, unrelated call", Min: 2, Run: c02r4},
 			{ID: "C04.R3", Title: "every base64 call in encoder and decoder uses the same Encoding object", Covers: "[]byte survives the round trip", Min: 2, Run: c04r3},
 		},
 	})
@@ -296,6 +300,8 @@ func init() {
 		Rules: []*core.Rule{
 			{ID: "C17.R1", Title: "per appender: needEscape* table marks exactly the bytes its variant must escape, the SWAR mask has one term per marked ASCII class plus the high-bit term, every marked ASCII byte has an escaping case", Covers: "no raw control/quote/backslash (and <,>,& under HTML escaping) in output", Min: 1100, Run: c17r1},
 			{ID: "C09.R1", Title: "stream-mode scanners (the \\u escape decoder among them) never use a window pointer, slice or loaded byte after a call that may refill the window without re-taking it (shared with C09)", Covers: "escapes decode to the same string in stream mode as in buffer mode, wherever the read boundary falls", Min: 12, Run: c09r1},
+			{ID: "C17.R5", Title: "every hand-written combination of a high and a low surrogate in the decoder (an expression over 0xd800, 0xdc00 and two rune variables) equals 0x10000 + (hi-0xD800)<<10 + (lo-0xDC00), folded for all 1024 high × 6 low and 8 high × 1024 low surrogates", Covers: "surrogate pairs decode to the string encoding/json yields", Min: 1, Run: c17r5},
+			{ID: "C17.R6", Title: "encoder.decodeRuneInString accepts exactly the well-formed (lead byte, second byte) pairs of UTF-8: the lead-byte table `first` and the accept-range switch are folded for all 256 × 256 pairs and compared with Unicode Table 3-7", Covers: "invalid UTF-8 (encoded surrogates, overlong forms, values above U+10FFFF) is replaced by U+FFFD", Min: 256, Run: c17r6},
 			{ID: "C17.R4", Title: "decodeRuneInString returns lineSepState/paragraphSepState only under s[0]==0xE2, s[1]==0x80 and s[2]==0xA8/0xA9", Covers: "only U+2028/U+2029 are rewritten as \\u2028/\\u2029; every other character keeps its bytes", Min: 2, Run: c17r4},
 			{ID: "C17.R3", Title: "decode_rune.go `first` equals the UTF-8 lead-byte classification", Covers: "invalid UTF-8 is recognised (replaced by U+FFFD)", Min: 256, Run: c17r3},
 		},
